@@ -161,7 +161,7 @@ def rule_fqn_format(rep):
         txt = unparse(rr.node)
         r.check(
             "symbol_name = symbol_ref.multiplicity_fqn" in txt
-            and "symbol = self.resolve_symbol_by_name(symbol_name, symbol_ref.location)" in txt
+            and re.search(r"symbol = self\.(_resolve_generated_symbol\(symbol_name\)|resolve_symbol_by_name\(symbol_name, symbol_ref\.location\))", txt) is not None
             and re.search(r"if not symbol:\s+symbol = self\._make_multiplicity_symbol\(", txt) is not None,
             "helper is created only when the lookup under that name fails",
             "_resolve_ref:lookup",
@@ -247,7 +247,7 @@ def _prod_descr(c, v, names):
         d = _nt_descr(e0, v)
         if d is not None:
             return names.get(d[:5], d[:5])
-        if isinstance(e0, ast.Call) and is_self_attr(e0.func, "resolve_symbol_by_name"):
+        if isinstance(e0, ast.Call) and (is_self_attr(e0.func, "resolve_symbol_by_name") or is_self_attr(e0.func, "_resolve_generated_symbol")):
             d = _name_descr(e0.args[0], v)
             return names.get(d, d)
         raise AnalysisError(f"unknown RHS element of a helper production: {t[:60]}")
@@ -283,7 +283,7 @@ def rule_expansion(rep):
         atoms = Atoms()
         atoms.enum("REF.multiplicity", "mult", MULTS)
         atoms.flag("REF.greedy", "greedy").flag("SEP", "sep").flag("SEP != None", "sep")
-        atoms.add(r"self\.resolve_symbol_by_name\(make_multiplicity_fqn\(.*\)\)", lambda v, m: v["found"])
+        atoms.add(r"self\.(resolve_symbol_by_name|_resolve_generated_symbol)\(make_multiplicity_fqn\(.*\)\)", lambda v, m: v["found"])
 
         def run(atom):
             def eff(st, it):
@@ -390,7 +390,7 @@ def _check_expansion(v, effs, ex):
             if d[5] != "IW":
                 return f"<{d[:5]} without imported_with>"
             return names.get(d[:5], str(d[:5]))
-        if isinstance(e0, ast.Call) and is_self_attr(e0.func, "resolve_symbol_by_name"):
+        if isinstance(e0, ast.Call) and (is_self_attr(e0.func, "resolve_symbol_by_name") or is_self_attr(e0.func, "_resolve_generated_symbol")):
             d = _name_descr(e0.args[0], v)
             return names.get(d, str(d))
         return plain(e0)[:50]
